@@ -14,8 +14,11 @@ import XotModel.Lemmas.Html5Esc
 import XotModel.Lemmas.Html5Names
 import XotModel.Lemmas.Html5Stream
 import XotModel.Lemmas.Html5Ctx
+import XotModel.Lemmas.Html5Token
 import XotModel.Lemmas.Html5Embedded
 import XotModel.Lemmas.Html5Top
+import XotModel.Lemmas.Html5Decode
+import XotModel.Lemmas.Html5Pretty
 
 namespace XotModel.Props
 open XotModel XotModel.Gen
@@ -163,21 +166,8 @@ theorem C19_tags_end (c : HtmlCtx) (s s' : HState) (node : Tree) (parent : Optio
     (tok : OutputToken) (h : renderHtml c s node parent (.endTag name) = .ok (s', tok)) :
     (tok.text = [] ↔ c.h.void.matches c.env name = true) ∧
     (c.h.void.matches c.env name = false →
-      ∃ full, s.stack.elementFullname c.env name = .ok full ∧ tok.text = ['<','/'] ++ full ++ ['>']) := by
-  simp only [renderHtml] at h
-  by_cases hv : c.h.void.matches c.env name = true
-  · simp only [hv, if_true, Outcome.ok.injEq, Prod.mk.injEq] at h
-    obtain ⟨_, rfl⟩ := h
-    simp [hv, litHtmlVoidEndTag]
-  · have hv' : c.h.void.matches c.env name = false := by simpa using hv
-    simp only [hv', Bool.false_eq_true, if_false] at h
-    cases hf : s.stack.elementFullname c.env name with
-    | error e => rw [hf] at h; cases h
-    | ok full =>
-      rw [hf] at h
-      simp only [Outcome.ok.injEq, Prod.mk.injEq] at h
-      obtain ⟨_, rfl⟩ := h
-      simp [hv', fmt, fmtHtmlEndTag]
+      ∃ full, s.stack.elementFullname c.env name = .ok full ∧ tok.text = ['<','/'] ++ full ++ ['>']) :=
+  c19_tags_end c s s' node parent name tok h
 
 /-! ### Unprefixed names -/
 
@@ -192,37 +182,8 @@ theorem C19_unprefixed (c : HtmlCtx) (s s' : HState) (node : Tree) (parent : Opt
     (h : renderHtml c s node parent (.startTagOpen name) = .ok (s', tok)) :
     tok.text = ['<'] ++ c.env.localName name ∨
     tok.text = ['<'] ++ c.env.localName name ++ [' ','x','m','l','n','s','=','"']
-      ++ serializeAttributeHtml (c.env.namespaceStr (c.env.nsOfName name)) ++ ['"'] := by
-  simp only [renderHtml] at h
-  split at h
-  · simp only [Outcome.ok.injEq, Prod.mk.injEq] at h
-    obtain ⟨_, rfl⟩ := h
-    right
-    simp [fmt, fmtHtmlStartTagOpenNs]
-  · rename_i hcond
-    left
-    have hfull : (s.stack.push (htmlDeclarations node (c.env.nsOfName name))).elementFullname c.env name =
-        .ok (c.env.localName name) := by
-      unfold FStack.elementFullname FStack.elementPrefix
-      by_cases h0 : (c.env.nsOfName name == Env.noNamespace) = true
-      · simp [h0, qname]
-      · have h1 : (c.env.nsOfName name == Env.xmlNamespace) = false := by simpa using hxml
-        have hmust : c.h.mustBeUnprefixed (c.env.nsOfName name) = true := by
-          rcases hns with hh | hm
-          · simp only [Html5Elements.isHtmlNamespace, Bool.or_eq_true] at hh
-            rcases hh with hh | hh
-            · simp [Html5Elements.mustBeUnprefixed, hh]
-            · exact absurd hh h0
-          · exact hm
-        have hhas : (s.stack.push (htmlDeclarations node (c.env.nsOfName name))).hasEmptyPrefix
-            (c.env.nsOfName name) = true := by
-          simpa [hmust] using hcond
-        simp only [FStack.hasEmptyPrefix, beq_iff_eq] at hhas
-        simp [h0, h1, hhas, qname]
-    rw [hfull] at h
-    simp only [Outcome.ok.injEq, Prod.mk.injEq] at h
-    obtain ⟨_, rfl⟩ := h
-    simp [fmt, fmtHtmlStartTagOpen]
+      ++ serializeAttributeHtml (c.env.namespaceStr (c.env.nsOfName name)) ++ ['"'] :=
+  c19_unprefixed c s s' node parent name tok hns hxml h
 
 /-- The ids `xot.html5()` uses for the three namespaces are not the XML namespace's, in every
     environment that has the built-in registrations of `Xot::new`. -/
@@ -289,21 +250,8 @@ theorem C19_text_cdata (c : HtmlCtx) (parent : Option Tree) (text : Str) (pn : N
     (hpn : parentElementName parent = some pn) (hraw : c.h.noEscape.matches c.env pn = false)
     (hcd : c.cdata.contains pn = true) :
     htmlTextValue c parent text = serializeCdata text ∧
-    cdataSectionsContent (htmlTextValue c parent text) = some text := by
-  have hv : htmlTextValue c parent text = serializeCdata text := by
-    simp only [htmlTextValue, hpn, hraw, hcd, Bool.false_eq_true, if_false, if_true]
-  refine ⟨hv, ?_⟩
-  rw [hv]
-  have hO : cdataOpen = ['<','!','[','C','D','A','T','A','['] := by decide
-  have hS : cdataSplit = [']',']',']',']','>'] ++ cdataOpen ++ ['>'] := by decide
-  have hR : cdataCr = [']',']','>'] ++ ['&','#','x','D',';'] ++ cdataOpen := by decide
-  have hC : cdataClose = [']',']','>'] := by decide
-  have h := cdataGo_sections hO hS hR hC text 0 0 (by omega) (by intro; rfl)
-  simp only [List.replicate_zero, List.nil_append, Nat.zero_add] at h
-  unfold cdataSectionsContent serializeCdata
-  rw [hO]
-  simp only [List.cons_append, List.nil_append]
-  rw [afterSection_open, h]
+    cdataSectionsContent (htmlTextValue c parent text) = some text :=
+  c19_text_cdata c parent text pn hpn hraw hcd
 
 /-! ### Attribute values -/
 
@@ -314,38 +262,8 @@ theorem C19_attr (c : HtmlCtx) (s s' : HState) (node : Tree) (parent : Option Tr
     (h : renderHtml c s node parent (.attribute name value) = .ok (s', tok)) :
     ∃ full, s.stack.attributeFullname c.env name = .ok full ∧ tok.space = true ∧
       ((tok.text = full ∧ asciiLower (c.env.localName name) = asciiLower value) ∨
-       (∃ v, tok.text = full ++ ['=','"'] ++ v ++ ['"'] ∧ '"' ∉ v ∧ refsOnly knownRefs v = true)) := by
-  simp only [renderHtml] at h
-  cases hf : s.stack.attributeFullname c.env name with
-  | error e => rw [hf] at h; cases h
-  | ok full =>
-    rw [hf] at h
-    simp only at h
-    refine ⟨full, rfl, ?_⟩
-    cases hb : htmlIsBooleanAttr c s.stack name value with
-    | error e => rw [hb] at h; cases h
-    | ok b =>
-      rw [hb] at h
-      cases b with
-      | true =>
-        simp only [Outcome.ok.injEq, Prod.mk.injEq] at h
-        obtain ⟨_, rfl⟩ := h
-        refine ⟨rfl, Or.inl ⟨by simp [fmt, fmtHtmlBooleanAttr], ?_⟩⟩
-        unfold htmlIsBooleanAttr at hb
-        split at hb
-        · split at hb
-          · simp only [Except.ok.injEq, Bool.and_eq_true, beq_iff_eq] at hb
-            exact hb.2
-          · cases hb
-        · cases hb
-      | false =>
-        simp only [Outcome.ok.injEq, Prod.mk.injEq] at h
-        obtain ⟨_, rfl⟩ := h
-        refine ⟨rfl, Or.inr ⟨htmlAttrValue c name value, by simp [fmt, fmtHtmlAttribute], ?_⟩⟩
-        unfold htmlAttrValue
-        split
-        · exact ⟨(serializeAttribute_safe value).1, (serializeAttribute_safe value).2.2⟩
-        · exact serializeAttributeHtml_safe value
+       (∃ v, tok.text = full ++ ['=','"'] ++ v ++ ['"'] ∧ '"' ∉ v ∧ refsOnly knownRefs v = true)) :=
+  c19_attr c s s' node parent name value tok h
 
 /-- A namespace-declaration token is empty, `xmlns="uri"` or `xmlns:prefix="uri"`; the URI is
     escaped like an attribute value. -/
@@ -354,23 +272,8 @@ theorem C19_attr_xmlns (c : HtmlCtx) (s s' : HState) (node : Tree) (parent : Opt
     tok.text = [] ∨
     ∃ v, (tok.text = ['x','m','l','n','s','=','"'] ++ v ++ ['"'] ∨
           tok.text = ['x','m','l','n','s',':'] ++ c.env.prefixStr p ++ ['=','"'] ++ v ++ ['"']) ∧
-      '"' ∉ v ∧ refsOnly knownRefs v = true := by
-  simp only [renderHtml] at h
-  split at h
-  · split at h
-    · simp only [Outcome.ok.injEq, Prod.mk.injEq] at h
-      obtain ⟨_, rfl⟩ := h
-      left; rfl
-    · split at h
-      · simp only [Outcome.ok.injEq, Prod.mk.injEq] at h
-        obtain ⟨_, rfl⟩ := h
-        exact Or.inr ⟨serializeAttributeHtml (c.env.namespaceStr ns),
-          Or.inl (by simp [fmt, fmtHtmlXmlnsDefault]), serializeAttributeHtml_safe _⟩
-      · simp only [Outcome.ok.injEq, Prod.mk.injEq] at h
-        obtain ⟨_, rfl⟩ := h
-        exact Or.inr ⟨serializeAttributeHtml (c.env.namespaceStr ns),
-          Or.inr (by simp [fmt, fmtHtmlXmlnsPrefix]), serializeAttributeHtml_safe _⟩
-  · cases h
+      '"' ∉ v ∧ refsOnly knownRefs v = true :=
+  c19_attr_xmlns c s s' node parent p ns tok h
 
 /-! ### Processing instructions -/
 
@@ -391,25 +294,8 @@ theorem C19_pi_form (c : HtmlCtx) (s : HState) (node : Tree) (parent : Option Tr
     (c.env.namespaceStr (c.env.nsOfName target)).isEmpty = true ∧
     match data with
     | some d => '>' ∉ d ∧ tok.text = ['<','?'] ++ c.env.localName target ++ [' '] ++ d ++ ['>']
-    | none => tok.text = ['<','?'] ++ c.env.localName target ++ ['>'] := by
-  simp only [renderHtml] at h
-  split at h
-  · cases h
-  · rename_i hns
-    refine ⟨by simpa using hns, ?_⟩
-    cases data with
-    | none =>
-      simp only [Outcome.ok.injEq, Prod.mk.injEq] at h
-      obtain ⟨_, rfl⟩ := h
-      simp [fmt, fmtHtmlPi]
-    | some d =>
-      simp only at h
-      split at h
-      · cases h
-      · rename_i hgt
-        simp only [Outcome.ok.injEq, Prod.mk.injEq] at h
-        obtain ⟨_, rfl⟩ := h
-        refine ⟨by simpa [htmlPiForbidden] using hgt, by simp [fmt, fmtHtmlPiData]⟩
+    | none => tok.text = ['<','?'] ++ c.env.localName target ++ ['>'] :=
+  c19_pi_form c s node parent target data s' tok h
 
 /-- Stream level: if any processing instruction among the serialised nodes has `>` in its data,
     the whole call returns an error (never a string), with or without indentation. -/
@@ -456,38 +342,8 @@ theorem C19_tokens (env : Env) (p : HtmlParams) (t : Tree) (start : Path) (out :
         (p.indentation = none → ∀ d ∈ decor, d = (0, false)) ∧
         out = htmlDoctype ++ (List.zip decor l).flatMap (fun dk =>
           (if dk.1.1 > 0 then htmlIndentBytes dk.1.1 else []) ++ htmlTokenBytes dk.2.2.2
-            ++ (if dk.1.2 then htmlNewline else [])) := by
-  unfold serializeHtmlString bufferToString at h
-  cases hr : (serializeHtmlWrite env p t start).2 with
-  | err e => rw [hr] at h; cases h
-  | panic => rw [hr] at h; cases h
-  | ok u =>
-    cases u
-    rw [hr] at h
-    simp only [Outcome.ok.injEq] at h
-    subst h
-    unfold serializeHtmlWrite at hr ⊢
-    cases hi : p.indentation with
-    | some sup =>
-      rw [hi] at hr
-      simp only at hr ⊢
-      obtain ⟨l, hl, decor, hlen, hb⟩ := writeHtmlPrettyGo_tokens _ sup t _ _ _ hr
-      exact ⟨l, hl, renderHtmlAll_mem _ t _ _ l hl, decor, hlen, by simp, by rw [hb]⟩
-    | none =>
-      rw [hi] at hr
-      simp only at hr ⊢
-      obtain ⟨l, hl, hb⟩ := writeHtmlGo_tokens _ t _ _ hr
-      refine ⟨l, hl, renderHtmlAll_mem _ t _ _ l hl, List.replicate l.length (0, false), by simp,
-        fun _ d hd => (List.eq_of_mem_replicate hd), ?_⟩
-      rw [hb]
-      congr 1
-      clear hb hl hr
-      induction l with
-      | nil => rfl
-      | cons k l ih =>
-        simp only [List.length_cons, List.replicate_succ, List.zip_cons_cons, List.flatMap_cons]
-        rw [ih]
-        simp
+            ++ (if dk.1.2 then htmlNewline else [])) :=
+  c19_tokens env p t start out h
 
 /-- End tags: in every successful serialisation, the end tag of an element in no namespace, in
     `XHTML_NS`, MathML or SVG is `</local>` — the bare local name, like its start tag
@@ -560,6 +416,136 @@ example :
     toHtmlString witnessEnv (.node (.element 2) [.node (.namespace 0 2) [], .node (.element 3) []]) [] = .ok
       ['<','!','D','O','C','T','Y','P','E',' ','h','t','m','l','>','<','d','i','v','>','<','s','v','g',' ','x','m','l','n','s','=','"','h','t','t','p',':','/','/','w','w','w','.','w','3','.','o','r','g','/','2','0','0','0','/','s','v','g','"','>','<','/','s','v','g','>','<','/','d','i','v','>'] := by decide
 
+/-! ### Round trip: reading the escaped tokens back
+
+`htmlDecode` (Lemmas/Html5Decode) is a strict reader of character references: `none` as soon as
+an `&` does not start a complete `&amp; &lt; &gt; &quot; &apos; &nbsp;` or numeric reference. -/
+
+/-- Text: unless the parent is a raw-text or requested CDATA-section element, decoding the token
+    gives the text node's value back (so nothing is lost, and no `&` is raw). -/
+theorem C19_text_roundtrip (c : HtmlCtx) (parent : Option Tree) (text : Str)
+    (hp : ∀ pn, parentElementName parent = some pn →
+      c.h.noEscape.matches c.env pn = false ∧ c.cdata.contains pn = false) :
+    htmlDecode (htmlTextValue c parent text) = some text := by
+  unfold htmlTextValue
+  cases hpn : parentElementName parent with
+  | none => exact htmlDecode_serializeText text
+  | some pn =>
+    obtain ⟨h1, h2⟩ := hp pn hpn
+    simp only [h1, h2, Bool.false_eq_true, if_false]
+    split
+    · exact htmlDecode_serializeTextHtml text
+    · exact htmlDecode_serializeText text
+
+/-- Attribute values (the `v` of `C19_attr` is `htmlAttrValue`) and namespace URIs in `xmlns`
+    tokens: decoding gives the value back. -/
+theorem C19_attr_roundtrip (c : HtmlCtx) (name : Nat) (value uri : Str) :
+    htmlDecode (htmlAttrValue c name value) = some value ∧
+    htmlDecode (serializeAttributeHtml uri) = some uri := by
+  refine ⟨?_, htmlDecode_serializeAttributeHtml uri⟩
+  unfold htmlAttrValue
+  split
+  · exact htmlDecode_serializeAttribute value
+  · exact htmlDecode_serializeAttributeHtml value
+
+/-- The reader is strict: a raw `&`, an unknown name, an unterminated reference are refused. -/
+example : htmlDecode ['a','&','b'] = none ∧ htmlDecode ['&','x','y',';'] = none ∧
+    htmlDecode ['&','a','m','p'] = none ∧
+    htmlDecode ['&','n','b','s','p',';','&','l','t',';'] = some ['\u00a0','<'] := by
+  refine ⟨?_, ?_, ?_, ?_⟩ <;>
+    simp [htmlDecode, splitSemi, htmlEntity, decodeEntity, namedEntity, namedEntities, List.lookup]
+
+/-! ### Where indentation goes
+
+With indentation, `serialize_pretty` decorates every token with `htmlPrettyTrace`: the
+(indentation, newline) pairs `Pretty::prettify` computes along the event stream. -/
+
+/-- The pretty string is the doctype and the rendered tokens decorated by `htmlPrettyTrace`. -/
+theorem C19_pretty_tokens (env : Env) (p : HtmlParams) (sup : List Nat) (t : Tree) (start : Path) (out : Str)
+    (hi : p.indentation = some sup) (h : serializeHtmlString env p t start = .ok out) :
+    ∃ l, renderHtmlAll (htmlCtx env p) t (htmlInitState (htmlCtx env p) t start) (genOutputs t start) = .ok l ∧
+      l.length = (genOutputs t start).length ∧
+      out = htmlDoctype ++ (List.zip (htmlPrettyTrace (htmlCtx env p) sup t [] (genOutputs t start)) l).flatMap
+        (fun dk => (if dk.1.1 > 0 then htmlIndentBytes dk.1.1 else []) ++ htmlTokenBytes dk.2.2.2
+          ++ (if dk.1.2 then htmlNewline else [])) := by
+  unfold serializeHtmlString bufferToString at h
+  cases hr : (serializeHtmlWrite env p t start).2 with
+  | err e => rw [hr] at h; cases h
+  | panic => rw [hr] at h; cases h
+  | ok u =>
+    cases u
+    rw [hr] at h
+    simp only [Outcome.ok.injEq] at h
+    subst h
+    unfold serializeHtmlWrite at hr ⊢
+    rw [hi] at hr ⊢
+    simp only at hr ⊢
+    obtain ⟨l, hl, hlen, hb⟩ := writeHtmlPrettyGo_trace _ sup t _ _ _ hr
+    exact ⟨l, hl, hlen, by rw [hb]⟩
+
+/-- The events of any subtree leave the `Pretty` stack as they found it (what `>` pushes the end
+    tag pops), and inside mixed content — below an element with a text or inline-element child, a
+    formatted element or a suppressed name, at any depth — no event gets indentation or a newline. -/
+theorem C19_pretty_subtree (c : HtmlCtx) (sup : List Nat) (t : Tree) (inScope : List (Nat × Nat)) (n : Tree)
+    (isTop : Bool) (path : Path) (ps : PStack) :
+    htmlPrettyFinal c sup t ps (genNode inScope isTop path n) = ps ∧
+    (ps.inMixed = true → htmlPrettyTrace c sup t ps (genNode inScope isTop path n) =
+      List.replicate (genNode inScope isTop path n).length (0, false)) :=
+  pretty_subtree c sup t inScope n isTop path ps
+
+/-- A mixed element is written on one line: of all its events, children included, only the start
+    tag can be indented and only the end tag can be followed by a newline (both as the content
+    around the element decides) — so pretty printing never adds a character to its content. -/
+theorem C19_pretty_mixed_element (c : HtmlCtx) (sup : List Nat) (t : Tree) (inScope : List (Nat × Nat))
+    (name : Nat) (ks : List Tree) (isTop : Bool) (path : Path) (ps : PStack)
+    (hat : t.at? path = some (.node (.element name) ks))
+    (hc : (Tree.node (.element name) ks).firstChild?.isSome = true)
+    (hm : htmlHasInlineChild c (.node (.element name) ks) = true ∨ htmlIsSuppressed c sup name = true) :
+    htmlPrettyTrace c sup t ps (genNode inScope isTop path (.node (.element name) ks)) =
+      (ps.getIndentation, false) ::
+        (List.replicate ((declEvents inScope isTop path (.node (.element name) ks)).length + 1
+          + (genNode.genKids inScope path 0 ks).length) (0, false) ++ [(0, ps.getNewline)]) :=
+  mixed_element_trace c sup t inScope name ks isTop path ps hat hc hm
+
+/-- What makes an element mixed, in terms of the tables: a text child or a child element that is
+    inline (HTML namespace and phrasing content, or HTML namespace and not an HTML element name at
+    all); suppressed = formatted (`pre`, `script`, `style`, `title`, `textarea` in the HTML
+    namespace, any letter case) or matched by the suppress list. -/
+theorem C19_pretty_mixed_iff (c : HtmlCtx) (sup : List Nat) (node : Tree) (name : Nat) :
+    (htmlHasInlineChild c node = node.normalKids.any (fun k => match k.value with
+      | .text _ => true
+      | .element n => c.h.isHtmlElement c.env n &&
+          (phrasingContentNames.contains (asciiLower (c.env.localName n))
+            || !html5Names.contains (asciiLower (c.env.localName n)))
+      | _ => false)) ∧
+    (htmlIsSuppressed c sup name =
+      ((c.h.isHtmlElement c.env name && formattedNames.contains (asciiLower (c.env.localName name)))
+        || htmlMatchesSuppress c.h c.env sup name)) := by
+  refine ⟨?_, by rw [htmlIsSuppressed, formatted_matches_eq]⟩
+  unfold htmlHasInlineChild
+  congr 1
+  funext k
+  cases k.value <;> simp only [isInline_eq]
+
+/-- Outside mixed content the placement is the XML one (C14): indentation or a newline only where
+    the stack is neither mixed nor in `xml:space="preserve"` scope. -/
+theorem C19_pretty_where (ps : PStack) (h : ps.getIndentation > 0 ∨ ps.getNewline = true) :
+    ps.inMixed = false ∧ ps.inSpacePreserve = false := by
+  rcases h with h | h
+  · cases hm : ps.inMixed <;> cases hp : ps.inSpacePreserve <;> simp [PStack.getIndentation, hm, hp] at h ⊢
+  · simpa [PStack.getNewline] using h
+
+/-- `<div><p>a<b>c</b></p><ul><li>x</li></ul></div>`: `p` and `li` are mixed (one line each), `div`
+    and `ul` are not. -/
+example :
+    (serializeHtmlString
+      ⟨[[], xmlNs], [[], ['x','m','l']],
+       [(['s','p','a','c','e'], 1), (['i','d'], 1), (['d','i','v'], 0), (['p'], 0), (['b'], 0), (['u','l'], 0), (['l','i'], 0)]⟩
+      ⟨some [], []⟩
+      (.node (.element 2) [.node (.element 3) [.node (.text ['a']) [], .node (.element 4) [.node (.text ['c']) []]],
+        .node (.element 5) [.node (.element 6) [.node (.text ['x']) []]]]) [])
+    = .ok ['<','!','D','O','C','T','Y','P','E',' ','h','t','m','l','>','<','d','i','v','>','\n',' ',' ','<','p','>','a','<','b','>','c','<','/','b','>','<','/','p','>','\n',' ',' ','<','u','l','>','\n',' ',' ',' ',' ','<','l','i','>','x','<','/','l','i','>','\n',' ',' ','<','/','u','l','>','\n','<','/','d','i','v','>','\n'] := by decide
+
 /-! ### Non-vacuity -/
 
 /-- Void, raw text, nbsp, boolean attribute, upper-case names: `<div><BR></BR>…` never appears. -/
@@ -570,7 +556,7 @@ example :
         (['c','h','e','c','k','e','d'], 0), (['p'], 0)]⟩
       (.node (.element 2) [.node (.attribute 5 ['C','H','E','C','K','E','D']) [],
         .node (.element 3) [], .node (.element 4) [.node (.text ['a','<','b','&']) []],
-        .node (.element 6) [.node (.text ['a','<','b','&',' ','"']) []]]) []
+        .node (.element 6) [.node (.text ['a','<','b','&','\u00a0','"']) []]]) []
     = .ok ['<','!','D','O','C','T','Y','P','E',' ','h','t','m','l','>','<','d','i','v',' ','c','h','e','c','k','e','d','>','<','B','R','>','<','s','c','r','i','p','t','>','a','<','b','&','<','/','s','c','r','i','p','t','>','<','p','>','a','&','l','t',';','b','&','a','m','p',';','&','n','b','s','p',';','"','<','/','p','>','<','/','d','i','v','>'] := by decide
 
 /-- `C19_pi` / `C19_pi_refused` are not vacuous: `<?pi a>b>` is refused. -/
